@@ -72,7 +72,7 @@ func main() {
 		{"full(2,4)x7", 7, 2, 4, nil, 200, nil, false},
 		{"full(2,4)x6+dup", 6, 2, 4, nil, 200, []int{0}, false},
 		{"full(2,5)x7", 7, 2, 5, nil, 200, nil, false},
-		{"full(3,6)x8", 8, 3, 6, nil, 9, []int{0}, false},
+		{"full(3,6)x8", 8, 3, 6, nil, 8, []int{0}, false},
 		{"seeds(2,4)x13", 13, 2, 4, seedOrders(13), 3, nil, false},
 		{"spread-seeds(2,4)x13", 13, 2, 4, seedOrders(13), 3, nil, true},
 		{"spread-full(2,4)x6", 6, 2, 4, nil, 200, nil, true},
